@@ -11,6 +11,8 @@ import pulsarbat as pb
 from .. import exact, gen, probes, monitors, inject, snapshot
 from ..ops import op_points
 
+from ..replay import wl_R
+
 RULE = ("byte-wise snapshots (sample buffer through its strides, dtype, shape, every metadata attribute, deep copy of meta, every array / "
         "Quantity / Time / list argument) taken at entry of every public operation (31 probe points, also for internal calls) and "
         "compared at exit, normal or exceptional. Workload: op table (slices, ufuncs, conversions, container helpers, concatenate, "
@@ -340,9 +342,14 @@ def wl_readers(ctx, idx, rng):
     ctx.describe_case({"reader": kind, "offset": off, "n": n})
 
 
+def install_universal(ctx):
+    SnapshotMonitor(ctx).install()
+    return probes.detach_all
+
+
 def workloads(ctx):
     q = ctx.tier == "quick"
-    return [("ops", 450 if q else 18000, wl_ops), ("inplace", 90 if q else 1800, wl_inplace),
+    return [("R", 1, wl_R), ("ops", 450 if q else 18000, wl_ops), ("inplace", 90 if q else 1800, wl_inplace),
             ("failpoints", 18 if q else 360, wl_failpoints), ("readers", 12 if q else 120, wl_readers)]
 
 
